@@ -129,6 +129,7 @@ def run(ctx):
     d2(db, rep)
     scalar_operand_checked(db, rep, "D1h-SCALAR-OPERAND-CHECKED")
     d3c_unroll_bounded(db, rep)
+    d1i_divisor_positive(db, rep)
 
     # ---- D3 ---------------------------------------------------------------
     n = loops.classify_and_judge(db, libfuncs, rep, rule="D3-R-LOOP")
@@ -136,6 +137,42 @@ def run(ctx):
     rep.extra["loops_classified"] = n
     rep.extra["equality_exit_loops"] = ne
     rep.floor("D3-R-LOOP", 800)
+
+
+def d1i_divisor_positive(db, rep, rule="D1i-DIVISOR-POSITIVE"):
+    """D1i: "without crashing".  Sizes and alignments of variables are ints taken as they are from the construction API and
+    from the .orc text.  An integer `/` or `%` whose divisor is such an attribute (OrcVariable.size / .alignment) traps when
+    the divisor is 0, and when it is -1 and the dividend INT_MIN.  At every such operation in the library a must-fact has to
+    bound the divisor from below by 1; a mere non-zero test is enough only where the dividend is an address."""
+    from flow import lower_bound
+    n = 0
+    for f in db.all_functions():
+        if not f.relfile.startswith("orc/") or f.body is None:
+            continue
+        fc = None
+        for x in f.walk():
+            if x.k not in ("BinaryOperator", "CompoundAssignOperator") or x.op not in ("/", "%", "/=", "%="):
+                continue
+            d = strip_casts(x.c[1])
+            if d is None or d.v is not None or d.k != "MemberExpr" or d.name not in ("size", "alignment") or "OrcVariable" not in (d.get("rec") or ""):
+                continue
+            fc = fc or Facts(f)
+            conds = fc.conds(x)
+            path = access_path(d)
+            lb = lower_bound(conds, path)
+            nonzero = any(c_[0] != "switch" and access_path(strip_casts(c_[0])) == path and c_[1] for c_ in conds)
+            addr = any(y.k == "CStyleCastExpr" and "ptr" in (y.get("toty") or "") for y in x.c[0].walk()) or "*" in (strip_casts(x.c[0]).ty or "") \
+                or any(y.k == "CStyleCastExpr" and "long" in (y.get("toty") or "") for y in x.c[0].walk())
+            n += 1
+            rep.saw(f)
+            ok = (lb is not None and lb >= 1) or (nonzero and addr)
+            rep.check(ok, rule, where(f), "%s:%s%s@%s" % (f.name, x.op, path, x.line),
+                      "the divisor `%s` is known to be %s here" % (path, ">= 1" if lb else "non-zero (address dividend)"),
+                      "%s evaluates `%s` where `%s` - a size/alignment stored as the application or the .orc text gave it - is not known to be positive: "
+                      "0 traps, and so does -1 with INT_MIN (`.source -1 s1 align 0x80000000`): the compile dies with SIGFPE" % (f.name, unparse(x)[:60], path), line=x.line)
+    if n < 2:
+        raise AnalysisBroken("only %d divisions by a variable's size/alignment found" % n)
+    return n
 
 
 def d3c_unroll_bounded(db, rep, rule="D3c-UNROLL-BOUNDED"):
